@@ -20,6 +20,18 @@ theorem C11_orderedKey_strictMono (a b : Nat) (ha : a < 2 ^ 64) (hb : b < 2 ^ 64
     (f64eq a b = true ↔ orderedKey a = orderedKey b) :=
   ⟨orderedKey_lt a b ha hb, orderedKey_eq a b ha hb⟩
 
+/-- **The key never leaves 64 bits** (for every input, in range or not): the unbounded-`Nat`
+    arithmetic of the model (`+ 2^63`, `2^64 − 1 − b`) stays inside what the code's `u64` bit
+    operations (`bits ^ sign-mask`, `!bits`) can represent, so no wrap-around is hidden by modelling
+    `u64` as `Nat`; and the two half-ranges do not overlap: non-negative floats map to
+    `[2^63, 2^64)`, negative ones to `[0, 2^63)`. -/
+theorem C11_orderedKey_fits (a : Nat) :
+    orderedKey a < 2 ^ 64 ∧
+    ((if a % 2 ^ 63 = 0 then 0 else a % 2 ^ 64) / 2 ^ 63 = 0 ↔ 2 ^ 63 ≤ orderedKey a) := by
+  unfold orderedKey
+  simp only [beq_iff_eq]
+  split <;> split <;> omega
+
 section
 variable (parse : String → Option Nat) (hp : ∀ s x, parse s = some x → x < 2 ^ 64)
 include hp
